@@ -728,3 +728,29 @@ def offset_contracts(pid="C14"):
     c.replayer = replayer
     out.append(c)
     return out
+
+
+def pds_decoder_contracts():
+    """PDS3 rejects zone offsets (the ODL offset branch is bypassed) and sub-millisecond precision (C14)"""
+    from ..pyvc.core import ObjV
+    I, B = z3.IntSort(), z3.BoolSort()
+    ACC = z3.Const("decode_value_accepts", B)
+    TEMP = z3.Const("decode_value_is_a_time_or_datetime", B)
+    US = z3.Const("decode_value_microsecond", I)
+    inner = [c for c in offset_contracts() if c.target.endswith("PVLDecoder.decode_datetime")][0]
+    fine = z3.And(TEMP, US % 1000 != 0)
+
+    def post(pre, post_, a, r):
+        return [("the result is the plain strptime cascade's result for the whole text (no offset branch)",
+                 z3.BoolVal(isinstance(r, ObjV) and r.role == "decoded" and r.info["of"] == "value" and not r.info.get("rezoned")))]
+    c = Contract("pvl.decoder.PDSLabelDecoder.decode_datetime", params={"value": "text"},
+                 requires=lambda pre, a: [("microsecond field range", z3.And(US >= 0, US <= 999999))],
+                 exits=[Exit("return", res="any", when=lambda pre, a: z3.And(ACC, z3.Not(fine)), post=post),
+                        Exit("ValueError", when=lambda pre, a: z3.Or(z3.Not(ACC), fine))], props=("C14",))
+    # the ODL decoder (with its offset branch) as a callee: if the PDS3 decoder ever delegates to it, the result is not the plain one
+    odl = Contract("pvl.decoder.ODLDecoder.decode_datetime", params={"value": "text"}, exits=[
+        Exit("return", res=lambda ex: ObjV("decoded", info={"of": "ODLDecoder-result-possibly-with-an-offset", "temporal": z3.Const("odl_temporal", B)})),
+        Exit("ValueError")])
+    odl.assumed = True
+    odl.note = "contract in section decoder-zone-offset-contract"
+    return [inner, odl, c]
